@@ -14,7 +14,11 @@ R39.b  parsec_argv_insert / parsec_argv_insert_element: the reallocation makes r
        before anything is moved; the suffix (old length - start entries) is moved up by exactly the number of new
        entries, from the last one down (the ranges overlap); the terminator lands at old + new; the new entries
        are written to start .. start+new-1 from source[0 ..], after the suffix was moved.
-Not decided: split / join round trips and command-line parsing (string values).
+R39.c  parsec_argv_join / parsec_argv_join_range (siblings): the buffer holds sum(strlen(piece) + 1) bytes, the
+       terminator takes the last one (str[--len] = 0) and the fill loop writes exactly str[0 .. len-1], one byte
+       per iteration - the joined string, its delimiters and its terminator fit the allocation exactly
+       (a bounded-write clause, necessary for "join gives the original string back").
+Not decided: split / join round trips as values and command-line parsing.
 """
 from sa import aff
 from sa.facts import AnalysisBroken, cond_atom
@@ -64,6 +68,9 @@ def run(ctx):
     u = ctx.extract(U)
     ra = ctx.rule('R39.a', 'parsec_argv_delete: free range, shift, terminator and reported count agree', floor=5)
     rb = ctx.rule('R39.b', 'parsec_argv_insert[_element]: room, suffix shift (descending), terminator and written positions agree', floor=10)
+
+    rc = ctx.rule('R39.c', 'parsec_argv_join[_range]: allocation = sum(strlen + 1), terminator in its last byte, fill bounded by it', floor=8)
+    check_join(ctx, u, rc)
 
     # ------------------------------------------------------------------ delete
     f = u.func('parsec_argv_delete'); ctx.functions_analysed.add(f.name)
@@ -217,3 +224,41 @@ def run(ctx):
         rb.expect(okc, '%s:written-positions' % fn, cp[0].loc, 'the new entries must be copies of source[0 ..] written to start .. start + new - 1', note='positions start .. start+new-1 written from source[0 ..]')
         rb.expect(f.ordered(sh[0], cp[0]) or not f.ordered(cp[0], sh[0]) and f.precedes(sh[0], cp[0]), '%s:shift-before-write' % fn, cp[0].loc,
                   'the suffix must be moved away before the new entries overwrite its old positions', note='suffix moved before the new entries are written')
+
+
+def check_join(ctx, u, rc):
+    for fn in ('parsec_argv_join', 'parsec_argv_join_range'):
+        f = u.func(fn); ctx.functions_analysed.add(f.name)
+        acc = [s_ for s_ in f.stores() if s_.op == '+=' and s_.lhs.k == 'ref' and any(c.n == 'strlen' for c in s_.rhs.walk() if c.k == 'call')]
+        if len(acc) != 1:
+            raise AnalysisBroken('%s: the length is no longer accumulated by one `len += strlen(piece) + ...` statement' % fn)
+        ln = acc[0].lhs.s
+        piece = [c for c in acc[0].rhs.walk() if c.k == 'call' and c.n == 'strlen'][0].ch[0]
+        zero = [s_ for s_ in f.stores(ln) if s_.op == '=' and s_.rhs is not None and s_.rhs.cv == 0]
+        other = [s_ for s_ in f.stores(ln) if s_ not in zero and s_ is not acc[0] and s_.op not in ('--',)]
+        rc.expect(aff.norm(acc[0].rhs) == P.atom('strlen(%s)' % aff.norm(piece)) + P.const(1) and bool(f.in_loop(acc[0].block)) and len(zero) == 1 and f.precedes(zero[0], acc[0]) and not other,
+                  '%s:length' % fn, acc[0].loc, 'the buffer length must be the sum of strlen(piece) + 1 over the pieces, starting from 0 (one byte per delimiter, the last one for the terminator)',
+                  note='len = sum(strlen(piece) + 1), from 0')
+        al = [c for c in f.calls('malloc')]
+        buf = [s_ for s_ in f.stores() if s_.rhs is not None and any(c.k == 'call' and c.n == 'malloc' for c in s_.rhs.walk())]
+        if len(al) != 1 or len(buf) != 1:
+            raise AnalysisBroken('%s: expected one malloc stored into the result' % fn)
+        b = buf[0].lhs.s
+        rc.expect(aff.norm(al[0].args[0]) == P.atom(ln) and f.ordered(acc[0], al[0]), '%s:allocation' % fn, al[0].loc, 'the buffer must be allocated with the accumulated length (found %s)' % al[0].args[0].s,
+                  note='malloc(len) after the accumulation')
+        wr = [s_ for s_ in f.stores() if s_.lhs.k == 'idx' and s_.lhs.ch[0].s == b]
+        term = [s_ for s_ in wr if s_.rhs is not None and s_.rhs.cv == 0 and s_.lhs.ch[1].k == 'un' and s_.lhs.ch[1].op == 'pre--' and s_.lhs.ch[1].ch[0].s == ln]
+        fill = [s_ for s_ in wr if s_ not in term]
+        okt = len(term) == 1 and f.ordered(al[0], term[0]) and all(f.ordered(term[0], s_) for s_ in fill) and len([s_ for s_ in f.stores(ln) if s_.op == '--']) == 1
+        rc.expect(okt, '%s:terminator' % fn, term[0].loc if term else f.where(), 'the terminator must take the last byte of the allocation (str[--len] = 0) before the fill loop, which then stops one byte earlier',
+                  note='str[--len] = 0 before the fill')
+        loops = [l for l in _for_loops(f) if any(s_.nid in l['body'] for s_ in fill)]
+        okl = len(loops) == 1 and len(fill) == 2
+        if okl:
+            l = loops[0]
+            iv = l['init'].ch[0].s if l['init'].k == 'asg' else (l['init'].ch[-1].ch[0].s if l['init'].k == 'bin' else None)
+            okl = iv is not None and aff.norm(l['init'].ch[1]) == P.const(0) and _upper_bounds(l['cond'], iv) == [P.atom(ln)] and l['inc'].k == 'un' and l['inc'].op in ('pre++', 'post++') and l['inc'].ch[0].s == iv \
+                and all(s_.lhs.ch[1].s == iv and s_.nid in l['body'] for s_ in fill) and not [s_ for s_ in f.stores(iv) if s_.nid in l['body']] \
+                and fill[0].block != fill[1].block
+        rc.expect(okl, '%s:fill' % fn, fill[0].loc if fill else f.where(), 'the fill loop must write exactly str[i] for i = 0 .. len-1, one byte per iteration (a delimiter or the next character)',
+                  note='fill writes str[0 .. len-1], one byte per iteration')
